@@ -42,3 +42,30 @@ def unit_distance(ref, hyp):
             new.append(min(row[j] + 1, new[j - 1] + 1, row[j - 1] + (ref[i - 1] != hyp[j - 1])))
         row = new
     return row[H]
+
+
+def banded_unit_distance(ref, hyp, band):
+    """Levenshtein distance when it is known not to exceed ``band`` (``hyp`` was derived from ``ref`` by at most
+    ``band`` single-token edits): an optimal alignment then never leaves the diagonals |i - j| <= band, so the
+    programme restricted to that band is exact.  O(len * band); returns band + 1 if the premise fails."""
+    R, H = len(ref), len(hyp)
+    if abs(R - H) > band:
+        return band + 1
+    INF = band + 1
+    prev = {j: j for j in range(0, min(H, band) + 1)}
+    for i in range(1, R + 1):
+        cur = {}
+        for j in range(max(0, i - band), min(H, i + band) + 1):
+            best = INF
+            if j == 0:
+                best = i
+            else:
+                if (j - 1) in prev:
+                    best = min(best, prev[j - 1] + (ref[i - 1] != hyp[j - 1]))
+                if (j - 1) in cur:
+                    best = min(best, cur[j - 1] + 1)
+            if j in prev:
+                best = min(best, prev[j] + 1)
+            cur[j] = min(best, INF)
+        prev = cur
+    return min(prev.get(H, INF), INF)
